@@ -86,9 +86,9 @@ func (this *Hnsw) Insert(id uuid.UUID, value math.Vector, metadata Metadata, ver
 		}
 		if atomic.CompareAndSwapPointer(&this.entrypoint, nil, unsafe.Pointer(vertex)) {
 			return nil
-		} else {
-			vertex.setLevel(vertexLevel)
 		}
+		// Lost the race for the first entry point. The vertex is already
+		// published through the vertices map, so it keeps level 0.
 	} else {
 		vertex = newHnswVertex(id, value, metadata, vertexLevel)
 		if err := this.storeVertex(vertex); err != nil {
